@@ -23,20 +23,31 @@ Op(name, A) == l <= Ix[x].e /\ E.op = name /\ A /\ PostOK /\ l' = l + 1 /\ UNCHA
 
 Subscribe == /\ E.id = nid
              /\ nodes' = nodes \cup Prefixes(E.p) /\ subj' = subj \cup {E.p}
-             /\ obs' = Append(obs, [id |-> nid, key |-> E.p, valid |-> TRUE]) /\ nid' = nid + 1
+             /\ obs' = Append(obs, [id |-> nid, key |-> E.p, valid |-> TRUE, thr |-> (E.thr = 1)]) /\ nid' = nid + 1
 Unsubscribe == /\ E.id \in Ids(obs) /\ obs' = SelectSeq(obs, LAMBDA e : e.id # E.id) /\ UNCHANGED <<nodes, subj, nid>>
 Invalidate == /\ \E i \in 1..Len(obs) : obs[i].id = E.id /\ obs[i].valid
               /\ obs' = [i \in 1..Len(obs) |-> IF obs[i].id = E.id THEN [obs[i] EXCEPT !.valid = FALSE] ELSE obs[i]]
               /\ UNCHANGED <<nodes, subj, nid>>
+\* observers whose callback throws (Subscribe with thr = 1): a notify that reaches one is aborted by the exception
+Throwers(D) == {obs[i].id : i \in {j \in 1..Len(obs) : obs[j].thr /\ obs[j].id \in D}}
 Notify == /\ LET M == Matched(nodes, subj, E.p) IN
+             /\ Throwers(Deliver(nodes, subj, obs, E.p)) = {}
              /\ SetOf(E.dl) = Deliver(nodes, subj, obs, E.p) /\ Len(E.dl) = Cardinality(SetOf(E.dl))
              /\ E.ret = Cardinality(M)
              /\ obs' = SelectSeq(obs, LAMBDA e : e.valid \/ e.key \notin M)
           /\ UNCHANGED <<nodes, subj, nid>>
+\* the exception left notify(): some of the matched observers were reached, each at most once, a thrower among them (which ones
+\* depends on the order in which the tree is walked, which the property does not fix); the router is what it was -- these
+\* histories contain no invalidated observers, so there is nothing a notify would have removed on the way
+NotifyThrew == /\ LET D == Deliver(nodes, subj, obs, E.p) IN
+                  /\ SetOf(E.dl) \subseteq D /\ Len(E.dl) = Cardinality(SetOf(E.dl))
+                  /\ Throwers(SetOf(E.dl)) # {}
+               /\ \A i \in 1..Len(obs) : obs[i].valid
+               /\ UNCHANGED <<nodes, subj, obs, nid>>
 Shrink == /\ nodes' = Visit(nodes, obs, E.p, <<>>, 0) /\ subj' = subj \cap AllNodes(nodes') /\ UNCHANGED <<obs, nid>>
 
 TNext == Op("Subscribe", Subscribe) \/ Op("Unsubscribe", Unsubscribe) \/ Op("Invalidate", Invalidate)
-         \/ Op("Notify", Notify) \/ Op("Shrink", Shrink)
+         \/ Op("Notify", Notify) \/ Op("NotifyThrew", NotifyThrew) \/ Op("Shrink", Shrink)
 TSpec == TInit /\ [][TNext]_vars
 Accepted == (l = Ix[x].e + 1) => PrintT(<<"ACCEPTED", x>>)
 Progress == Diag => PrintT(<<"AT", x, l>>)
